@@ -5,12 +5,12 @@ package main
 // what was acknowledged, what was deleted, which bytes each session received.
 import (
 	"bufio"
-	"net/url"
-	"regexp"
 	"encoding/json"
 	"fmt"
+	"net/url"
 	"os"
 	"path/filepath"
+	"regexp"
 	"sort"
 	"strconv"
 	"strings"
@@ -40,26 +40,27 @@ type sessShadow struct {
 }
 
 type repoShadow struct {
-	blobs    map[string][]byte      // real digest -> bytes: acknowledged, not deleted
-	mans     map[string]*manShadow  // real digest -> manifest: acknowledged, not deleted by digest
-	tags     map[string]string      // tag -> real digest
-	pushed   map[string]bool        // content (as string) ever pushed or mounted to this repository
-	dirty    bool                   // a collection ran: retained set is judged by the GC properties, not here
-	orphans  map[string]bool        // digests that were children of an index since deleted by digest
-	deleted  map[string]bool        // blobs whose last acknowledged request was a delete through the blob API
-	refDirty bool                   // referrers bookkeeping no longer exact (blob of an artifact deleted, switch toggled …)
+	blobs    map[string][]byte     // real digest -> bytes: acknowledged, not deleted
+	mans     map[string]*manShadow // real digest -> manifest: acknowledged, not deleted by digest
+	tags     map[string]string     // tag -> real digest
+	pushed   map[string]bool       // content (as string) ever pushed or mounted to this repository
+	dirty    bool                  // a collection ran: retained set is judged by the GC properties, not here
+	orphans  map[string]bool       // digests that were children of an index since deleted by digest
+	deleted  map[string]bool       // blobs whose last acknowledged request was a delete through the blob API
+	refDirty bool                  // referrers bookkeeping no longer exact (blob of an artifact deleted, switch toggled …)
 }
 
 type Monitors struct {
-	w     *bufio.Writer
-	count map[string]int
-	repos map[string]*repoShadow
-	sess  map[int]*sessShadow
-	obs   bool
-	pre   map[string][]string
-	fsBase []string
+	w          *bufio.Writer
+	count      map[string]int
+	repos      map[string]*repoShadow
+	sess       map[int]*sessShadow
+	obs        bool
+	noProbes   bool // the mode accounts for every operation of a line (crash, conc): no monitor sends requests of its own
+	pre        map[string][]string
+	fsBase     []string
 	prevStore  string
-	prevRef    string // the referrers switch before the last restart
+	prevRef    string                     // the referrers switch before the last restart
 	othersPre  map[string][]string        // read surface of the other repositories before a collection (C16)
 	rootedPre  map[string]map[string]bool // repo -> digests that a top-level entry (other than a referrers response) leads to, before the collection
 	gcBefore   *gcPre
@@ -769,7 +770,7 @@ func isIndexMT(t string) bool { return t == "ocii" || t == "dockl" }
 // as a referrer - unless the same bytes had been acknowledged before
 func (m *Monitors) refusedUnchanged(h *H, repo, ref string, body []byte, r Resp) {
 	rs := m.repo(repo)
-	if r.Status < 400 || r.Status >= 500 || rs.dirty || !m.routable(h, repo) || len(body) == 0 {
+	if m.noProbes || r.Status < 400 || r.Status >= 500 || rs.dirty || !m.routable(h, repo) || len(body) == 0 {
 		return
 	}
 	acc := map[string][]string{"Accept": {mtReal["ocim"], mtReal["ocii"], mtReal["dockm"], mtReal["dockl"]}}
@@ -883,7 +884,7 @@ func (m *Monitors) mPut(h *H, a []string, r Resp) {
 	ms.blobGone = false
 	delete(rs.deleted, real)
 	delete(m.aged, repo+"|"+real) // a pushed manifest is recent, also when its bytes were there already (C05)
-	ms.respLost = false // a push registers the manifest with its subject again
+	ms.respLost = false           // a push registers the manifest with its subject again
 	ms.noRoot = false
 	m.note(repo, real)
 	ms.mts[mt] = true
